@@ -1098,12 +1098,14 @@ func c13AllSigned(r *core.Run, p *core.Program, st *ssa.Function) {
 			cs := an.EdgeConds(pr, ph.Block())
 			okKeep := false
 			for _, c := range cs {
-				if bo, ok := c.If.Cond.(*ssa.BinOp); ok && bo.Op == token.NEQ && !c.True {
-					if ph, ok := bo.X.(*ssa.Phi); ok && ph.Type().String() == "error" && an.Expr(bo.Y) == "nil" {
-						okKeep = true // the signing call's error result is nil
-					}
+				x, y, rel, isCmp := c.Cmp() // the comparison that holds on this way, whichever way it is written
+				if !isCmp || an.Expr(y) != "nil" {
+					continue
 				}
-				if strings.Contains(c.Cond, "NewMultiSigFromScript") && strings.HasSuffix(c.Cond, "#0 != nil)") && c.True {
+				if ph, ok := x.(*ssa.Phi); ok && rel == token.EQL && ph.Type().String() == "error" {
+					okKeep = true // the signing call's error result is nil
+				}
+				if xe := an.Expr(x); rel == token.NEQ && strings.Contains(xe, "NewMultiSigFromScript") && strings.HasSuffix(xe, "#0") {
 					okKeep = true
 				}
 			}
@@ -1485,8 +1487,11 @@ func c13Nil(r *core.Run, p *core.Program) {
 				// or: same iteration of the loop that just stored a non-nil value after the compressed-key test
 				if !ok {
 					for _, c := range cs {
-						if strings.HasPrefix(c.Cond, "(builtin.len(") && strings.HasSuffix(c.Cond, ".Pubkey) != 33)") && !c.True {
-							ok = true
+						// "the key has 33 bytes" holds here, whichever way the test is written
+						if x, y, rel, isCmp := c.Cmp(); isCmp && rel == token.EQL {
+							if k, isC := an.ConstOf(y); isC && k.IsInt64() && k.Int64() == 33 && strings.HasPrefix(an.Expr(x), "builtin.len(") && strings.HasSuffix(an.Expr(x), ".Pubkey)") {
+								ok = true
+							}
 						}
 					}
 				}
